@@ -385,7 +385,7 @@ func (rn *c12Runner) run(k *c12Case) {
 	}
 	e2 := env.cue(dir, nil, append(append(append([]string{"export"}, finalIn...), "--out", "json"), finalArgs...)...)
 	if e2.code != 0 {
-		if m, ok := k.val.(*c12Map); ok && k.impMode != 3 && (bytes.Contains(e2.stderr, []byte("expected 'STRING', found ':'")) || bytes.Contains(e2.stderr, []byte("expected 'IDENT', found ':'"))) {
+		if m, ok := k.val.(*c12Map); ok && (k.enc == "cue" || k.impMode != 3) && (bytes.Contains(e2.stderr, []byte("expected 'STRING', found ':'")) || bytes.Contains(e2.stderr, []byte("expected 'IDENT', found ':'"))) {
 			for _, key := range m.Keys {
 				if key == "import" || key == "package" {
 					// known: a leading field named import/package is written unquoted
